@@ -8,9 +8,9 @@
 READY_C09 = True
 READY_C10 = True
 READY_C11 = True
-COQ_PROPS_C09 = []  # TMP
-COQ_PROPS_C10 = []  # TMP
-COQ_PROPS_C11 = []  # TMP
+COQ_PROPS_C09 = ['Properties_C09_bloom']
+COQ_PROPS_C10 = ['Properties_C10_bloom']
+COQ_PROPS_C11 = ['Properties_C11_bloom', 'Regression_bloomcodec']
 TRUSTED = ['Bloom filter codec model coq/BloomCodecDefs.v written by hand from bloom_filter_impl.hpp (layout comment and the four readers); the logical content of a '
            'filter (hashes, seed, words, empty / dirty, cached count, set bit positions) is read from the object (E line) and passed to the model: hashing is C15\'s '
            'business, the codec model starts from the logical content; Properties_C09_bloom.enc_is_serialize ties enc to the serialize of the C15 model']
@@ -251,5 +251,16 @@ RULE_C11 = ('every strict prefix of empty and non-empty images (owned and caller
             'Coq decoders predicting accept/reject and the decoded content; headers that announce more than 16 MiB are not replayed (see ASSUMPTIONS); non-trivial = every case')
 
 MUTATIONS = '''
-(filled in below after the runs)
+(scratch worktree = /repo + fixes/11_bloom_header_validation.patch, VERIF_SEED=1, quick; C09 / C10 / C11 run with this family alone)
+ C1 seed and bit-array length written and read in swapped order, consistently in both writers, the memory constructor and both readers:
+    C09 C10 C11 bloom_documented_layout (+ image != Coq encoder); a pure round-trip test passes
+ C2 EMPTY_FLAG_MASK 4 -> 2 (consistent): C09 C10 bloom_documented_layout, C11 model/implementation verdicts differ
+ C3 bytes/wrap reader without ensure_minimum_memory(end_ptr - ptr, num_bytes): C11 sanitizer report on a strict prefix (model rejects)
+ C4 stream reader without the stream-state test after the bit array: C11 bloom_prefix_accepted
+ C5 fixes/11_bloom_header_validation.patch reverted: C11 sanitizer report / verdicts differ on corrupted num_longs
+ C6 get_serialized_size_bytes() one long too many: C09 C10 C11 bloom_bytes_stream_size_header
+ C7 the readers ignore the dirty marker (is_dirty = false): C09 C10 bloom_roundtrip (bits used, re-serialized bytes)
+ C8 FAMILY_ID 21 -> 22 (consistent): C09 C10 C11 bloom_documented_layout
+ C9 stream reader without the stream-state test after the header: C11 bloom_prefix_accepted (empty images, cuts 4..23)
+ harmless H1 (family id checked before the serial version), H2 (serialize(ostream) writes the bit array in two chunks): exit 0 on C09, C10, C11
 '''
